@@ -1,0 +1,12 @@
+//go:build verif
+// +build verif
+
+package miner
+
+// This file is compiled only with the "verif" build tag. It exposes the unexported pure scheduling
+// helper of the miner to the verification harnesses in /verif; it changes no behaviour.
+
+// VerifGetSleepTime calls getSleepTime: (wait in ms before sealing, absolute end of the mine window in ms).
+func (m *Miner) VerifGetSleepTime(mineHeight uint32, distance uint32, parentTime int64, currentTime int64) (int64, int64) {
+	return m.getSleepTime(mineHeight, distance, parentTime, currentTime)
+}
